@@ -192,3 +192,20 @@ def printed_at(specials, general, k):
     import sympy as sp
     if k < len(specials): return specials[k]
     return general.xreplace({sp.Symbol('n', integer=True): sp.Integer(k)})
+
+
+def run_cli_files(srcs, args, timeout=180, env=None):
+    """Run the REAL command line on SEVERAL source texts in one process (polar.py a.prob b.prob ...), as polar.main loops over benchmarks."""
+    e = dict(os.environ); e['PYTHONPATH'] = REPO; e.setdefault('PYTHONHASHSEED', '0'); e['MPLBACKEND'] = 'Agg'
+    if env: e.update(env)
+    paths = []
+    try:
+        for src in srcs:
+            with _tempfile.NamedTemporaryFile('w', suffix='.prob', delete=False) as f:
+                f.write(src); paths.append(f.name)
+        p = subprocess.run([VENV_PY, os.path.join(REPO, 'polar.py')] + paths + list(args), capture_output=True, text=True, timeout=timeout, env=e, cwd=REPO)
+        return ('ok' if p.returncode == 0 else 'error'), _ANSI.sub('', p.stdout), _ANSI.sub('', p.stderr)
+    except subprocess.TimeoutExpired:
+        return 'timeout', '', ''
+    finally:
+        for q in paths: os.unlink(q)
